@@ -290,6 +290,28 @@ fn large_n_case<T: Sc>(rng: &mut Rng, case: u64, out: &mut CaseOut, ops: &OpLog)
     exercise::<T>(&g.spec, &[], &LmCfg::default_cfg(), out, ops);
 }
 
+/// (xi) a builder-made model with a basis function of 11..14 parameters: a user type implementing the
+/// public BasisFunction trait (closures stop at ten), next to ordinary closures and invariant functions
+fn custom_arity_case<T: Sc>(rng: &mut Rng, case: u64, out: &mut CaseOut, ops: &OpLog) {
+    let cs = crate::coded::random_coded_custom_arity(rng);
+    let np = cs.names.len();
+    let n = cs.x.len();
+    let alpha0: Vec<f64> = (0..np).map(|i| 0.3 + 0.71 * i as f64 + rng.range(0.0, 0.2)).collect();
+    let s = if rng.chance(0.7) { 1 } else { 2 };
+    let y = Mat::from_fn(n, s, |_, _| rng.normal() * 3.0);
+    let w = if rng.chance(0.5) { Some((0..n).map(|_| rng.range(0.3, 2.0)).collect()) } else { None };
+    ops.op(&format!("model with a basis function of arity {}", cs.funcs.iter().map(|f| f.params.len()).max().unwrap_or(0)));
+    let spec = ProblemSpec { model: ModelKind::Coded(cs), alpha0: alpha0.clone(), y, w, eps: None, mrhs: s > 1, par: rng.chance(0.3) };
+    out.nontrivial.push(spec.hash());
+    out.seen("classes", "custom BasisFunction type of arity 11..14");
+    let cfg = LmCfg { ftol: 1e-8, xtol: 1e-8, gtol: 0.0, stepbound: 100.0, patience: 3, scale_diag: true, default: false };
+    let step: Vec<f64> = alpha0.iter().map(|a| a * rng.range(0.9, 1.1)).collect();
+    if case < 1_000_000 {
+        out.sample(json!({"class": "custom-arity", "P": np, "N": n}));
+    }
+    exercise::<T>(&spec, &[step], &cfg, out, ops);
+}
+
 /// (viii) whatever the model builder accepts must be usable: models built from random (near-valid)
 /// builder programs with closures of arbitrary arity are evaluated, differentiated and fitted
 fn builder_program_case(rng: &mut Rng, case: u64, out: &mut CaseOut, ops: &OpLog) {
@@ -343,6 +365,9 @@ pub fn case(rng: &mut Rng, case: u64, out: &mut CaseOut, ops: &OpLog) {
     if rng.chance(0.15) {
         return builder_program_case(rng, case, out, ops);
     }
+    if rng.chance(0.03) {
+        return if f32_ { custom_arity_case::<f32>(rng, case, out, ops) } else { custom_arity_case::<f64>(rng, case, out, ops) };
+    }
     match rng.below(10) {
         0..=3 => {
             if f32_ {
@@ -376,7 +401,7 @@ pub fn case(rng: &mut Rng, case: u64, out: &mut CaseOut, ops: &OpLog) {
 }
 
 pub fn run(ctx: &Ctx) {
-    ctx.rule("cases: (a) multi-exponential fits from random starts (tau in [-10,10], 0.2x-5x and -1x..3x the truth) under default and random optimizer settings; (b) zoo problems with values from the hostile IEEE-754 pool {0,-0,+-1,NaN,+-inf,+-MAX,MIN_POSITIVE,5e-324,1e+-300,1e+-154,...} substituted into x, y, w, alpha, epsilon with probability 0.02..0.6; (d) models accepted by the model builder from random near-valid builder programs (closures of arity 1..10) are evaluated, differentiated and fitted; (c) table models N=1..9 (including N<M), M=1..4, P=1..3, S=1..3 with hostile entries in values and derivatives; (e) exactly zero observations with finite basis functions and hostile derivatives (the fit succeeds without ever requesting a Jacobian, so the statistics meet the derivatives first); (f) every 5000th case has 1.2e5..1.6e5 observations (memory and time must stay linear in N: a dense N x N object cannot be allocated here and aborts the child); 30% f32; each case = build, 0..3 parameter updates with queries, fit, fit_with_statistics and every statistics accessor, executed in a child process under a CPU-time watchdog. distinct = hash of the generated problem; non-trivial = hostile value injected or random start");
+    ctx.rule("cases: (a) multi-exponential fits from random starts (tau in [-10,10], 0.2x-5x and -1x..3x the truth) under default and random optimizer settings; (b) zoo problems with values from the hostile IEEE-754 pool {0,-0,+-1,NaN,+-inf,+-MAX,MIN_POSITIVE,5e-324,1e+-300,1e+-154,...} substituted into x, y, w, alpha, epsilon with probability 0.02..0.6; (d) models accepted by the model builder from random near-valid builder programs (closures of arity 1..10) are evaluated, differentiated and fitted; (c) table models N=1..9 (including N<M), M=1..4, P=1..3, S=1..3 with hostile entries in values and derivatives; (e) exactly zero observations with finite basis functions and hostile derivatives (the fit succeeds without ever requesting a Jacobian, so the statistics meet the derivatives first); (g) builder-made models with a basis function of 11..14 parameters (a user type implementing the BasisFunction trait); (f) every 5000th case has 1.2e5..1.6e5 observations (memory and time must stay linear in N: a dense N x N object cannot be allocated here and aborts the child); 30% f32; each case = build, 0..3 parameter updates with queries, fit, fit_with_statistics and every statistics accessor, executed in a child process under a CPU-time watchdog. distinct = hash of the generated problem; non-trivial = hostile value injected or random start");
     ctx.assume(&format!("liveness restated as bounded progress: every case returns within {CPU_BUDGET_S} CPU-seconds (isolated replay: 3x), >=100x the slowest legitimately terminating case of this corpus"));
     ctx.assume("panics are caught inside the child (catch_unwind) and reported as events; the panic location decides whether the subject or the harness panicked");
     let n = ctx.tier.pick(10000, 600000);
